@@ -707,4 +707,18 @@ theorem lexAll_is_stream (input : Array UInt8) (i : Nat) :
     simp only [Option.getD_some, Option.getD_none]
     exact ((stream_tail_eof input i (by omega)).1).symm
 
+/-- the last element of `lexAll input` — what the parser model repeats for ever — is an EOF token -/
+theorem lexAll_back_eof (input : Array UInt8) (d : Token) : ((lexAll input).back?.getD d).type = .EOF := by
+  have hlen : (lexN (input.size + 2) (LX.new input)).length = input.size + 2 := by
+    generalize LX.new input = l
+    generalize input.size + 2 = n
+    induction n generalizing l with
+    | zero => rfl
+    | succ n ih => simp [lexN, ih]
+  have hback : (lexAll input).back? = some (tokenAt (input.size + 1) (LX.new input)) := by
+    simp only [lexAll, Array.back?, List.size_toArray, hlen]
+    simp [lexN_getElem? (input.size + 2) (LX.new input) (input.size + 1) (by omega)]
+  rw [hback]
+  exact (stream_tail_eof input (input.size + 1) (Nat.le_refl _)).2
+
 end Plush
